@@ -552,70 +552,11 @@ def hmeta_check(h, m):
 # harness
 # ----------------------------------------------------------------------------
 def build(spec):
-    from hypergraphx import Hypergraph
+    from verif.props.C02 import make_harness
 
     U = UNIVERSES[spec["universe"]]
-    absent = ABSENT[spec["universe"]]
-    cands = node_sets(U)
-    weighted = spec["weighted"]
-    ops = spec["ops"]
-
-    def harness(S):
-        f = S.int("f")
-        ctr = [0]
-        h = Hypergraph(weighted=weighted)
-        m = Model(weighted)
-        shadow = None  # (object, model) left behind by copy
-        n_ops = len(ops)
-        for i, op in enumerate(ops):
-            # the full battery is compared after the last two operations, a light one after earlier
-            # prefixes (every prefix of a state-layer history is itself the end of another obligation)
-            full = i >= n_ops - 2
-            if op[0] == "copy":
-                h2 = h.copy()
-                shadow = (h, m.clone())
-                h = h2
-                d = compare(obs_impl(h, f, U, absent, cands, full), obs_model(m, f, U, absent, cands, full))
-                if d:
-                    return Fail("copy:" + d)
-                continue
-            cop = materialise(op, S, ctr)
-            try:
-                apply_model(m, cop)
-                mok = True
-            except Reject:
-                mok = False
-            except Open:
-                return None
-            prev = None if mok else obs_impl(h, f, U, absent, cands, True)
-            try:
-                apply_impl(h, cop)
-                iok = True
-            except Exception:  # noqa: BLE001
-                iok = False
-            if mok and not iok:
-                apply_impl(h, cop)  # raises again: the engine labels the exception with its call site
-                return Fail("%s:raised-on-valid-call" % op[0])
-            if iok and not mok:
-                return Fail("%s:accepted-invalid-call" % op[0])
-            if not iok:
-                d = compare(obs_impl(h, f, U, absent, cands, True), prev)
-                if d:
-                    return Fail("%s:rejected-call-changed:%s" % (op[0], d))
-            else:
-                d = compare(obs_impl(h, f, U, absent, cands, full), obs_model(m, f, U, absent, cands, full))
-                if d:
-                    return Fail("%s:%s" % (op[0], d))
-                if not hmeta_check(h, m):
-                    return Fail("%s:hypergraph_metadata" % op[0])
-            if shadow is not None:
-                d = compare(obs_impl(shadow[0], f, U, absent, cands, full),
-                            obs_model(shadow[1], f, U, absent, cands, full))
-                if d:
-                    return Fail("%s:copy-source-changed:%s" % (op[0], d))
-        return None
-
-    return harness
+    return make_harness("Hypergraph", Model, apply_model, apply_impl, obs_impl, obs_model, spec, U,
+                        ABSENT[spec["universe"]], node_sets(U))
 
 
 # ----------------------------------------------------------------------------
@@ -697,7 +638,7 @@ def abstract_state(m):
 def run_model(ops, weighted):
     m = Model(weighted)
     for op in ops:
-        if op[0] == "copy":
+        if op[0] in ("copy", "copy_keep"):
             continue
         try:
             apply_model(m, _concretise(op))
@@ -764,9 +705,10 @@ def obligations(tier, seed):
                 for op in sel:
                     out.append({"family": "hist", "layer": "state", "universe": uni, "weighted": weighted,
                                 "ops": base + [op]})
-        from verif.props.C02 import detours
+        from verif.props.C02 import detours, pair_layers
 
         out.extend(detours(alpha, uni, weighted, rng, 14 if tier == "quick" else 80))
+        out.extend(pair_layers(alpha, uni, weighted, rng, tier == "quick"))
         # (iii) seeded longer histories
         n_long = 16 if tier == "quick" else 120
         for _ in range(n_long):
